@@ -54,17 +54,18 @@ def prune (a : Arena) (x : Nat) : Arena × Out :=
     | none => (a, .diverge)
   else (a, .err "NodeNotFound")
 
+/-- the branch length of the spliced edge: both present (sum), both absent, or a refusal -/
+def sumLen : Option Int → Option Int → Option (Option Int)
+  | some x, some y => some (some (x + y))
+  | none, none => some none
+  | _, _ => none
+
 /-- `Tree::compress_node` (with the depth repair) -/
 def compressNode (a : Arena) (v : Nat) : Arena × Out :=
   if !isLive a v then (a, .err "NodeNotFound") else
   match (nd a v).parent, (nd a v).children with
   | some p, [c] =>
-    let ne : Option (Option Int) :=
-      match (nd a v).pedge, alGet (nd a v).cedges c with
-      | some x, some y => some (some (x + y))
-      | none, none => some none
-      | _, _ => none
-    match ne with
+    match sumLen (nd a v).pedge (alGet (nd a v).cedges c) with
     | none => (a, .err "MissingBranchLengths")
     | some e =>
       if !isLive a c || !isLive a p then (a, .err "NodeNotFound") else
@@ -94,8 +95,16 @@ def scaleNode (k : Int) (n : Node) : Node :=
 /-- `Tree::rescale` (both records of every slot) -/
 def rescale (a : Arena) (k : Int) : Arena := a.map (scaleNode k)
 
+/-- slot updates of `merge_children` on two parentless nodes: the fresh node `w = a.size` becomes a root
+    above both -/
+def rootGroup (a : Arena) (c1 c2 : Nat) (e1 e2 : Option Int) : Arena :=
+  let a1 := a.setIfInBounds c1 { nd a c1 with parent := some a.size, pedge := e1 }
+  let a2 := a1.setIfInBounds c2 { nd a1 c2 with parent := some a.size, pedge := e2 }
+  a2.push (setCedge (setCedge { children := [c1, c2] } c1 e1) c2 e2)
+
 /-- `Tree::merge_children` (with the `child1 == child2` refusal and the depth repair).
-    For two parentless nodes the new node becomes a new root. -/
+    For two parentless nodes the new node becomes a new root.  The name of the new node is payload: it is
+    written last here (the Rust code creates the node with it), no structural step reads it. -/
 def mergeChildren (a : Arena) (c1 c2 : Nat) (e1 e2 pe : Option Int) (name : Option String) : Arena × Out :=
   if !isLive a c1 then (a, .err "NodeNotFound") else
   if !isLive a c2 then (a, .err "NodeNotFound") else
@@ -104,21 +113,17 @@ def mergeChildren (a : Arena) (c1 c2 : Nat) (e1 e2 pe : Option Int) (name : Opti
   let a1 : Option Arena :=
     match (nd a c1).parent with
     | some q => if isLive a q then some (group a q c1 c2 pe e1 e2) else none
-    | none =>
-      let a1 := a.setIfInBounds c1 { nd a c1 with parent := some w, pedge := e1 }
-      let a2 := a1.setIfInBounds c2 { nd a1 c2 with parent := some w, pedge := e2 }
-      some (a2.push (setCedge (setCedge { children := [c1, c2] } c1 e1) c2 e2))
+    | none => some (rootGroup a c1 c2 e1 e2)
   match a1 with
   | none => (a, .err "NodeNotFound")
   | some a1 =>
-    let a2 := setName a1 w name
-    let d := (nd a2 w).depth + 1
-    match resetF (fuelOf a2) a2 c1 d with
-    | none => (a2, .diverge)
+    let d := (nd a1 w).depth + 1
+    match resetF (fuelOf a1) a1 c1 d with
+    | none => (setName a1 w name, .diverge)
     | some a3 =>
-      match resetF (fuelOf a2) a3 c2 d with
-      | none => (a3, .diverge)
-      | some a4 => (a4, .ok (some w))
+      match resetF (fuelOf a1) a3 c2 d with
+      | none => (setName a3 w name, .diverge)
+      | some a4 => (setName a4 w name, .ok (some w))
 
 /-- nodes with more than two children, in arena order: `to_binarize` of `Tree::resolve` -/
 def toBinarize (a : Arena) : List Nat :=
@@ -178,6 +183,17 @@ def levelF : Nat → Arena → List Nat → List Nat → Option (List Nat)
 
 def levelorder (a : Arena) (x : Nat) : Option (List Nat) := levelF (fuelOf a) a [x] []
 
+/-- one step of `Tree::ladderize` at node `v`: its descendant count from its children's, then a stable
+    sort of its child list by that count -/
+def ladderStep (st : Arena × Array Nat) (v : Nat) : Arena × Array Nat :=
+  let a := st.1
+  let cnt := st.2
+  let kids := (nd a v).children
+  let cv := (kids.map (fun c => cnt.getD c 0 + 1)).sum
+  let cnt' := cnt.setIfInBounds v cv
+  let sorted := kids.mergeSort (fun x y => decide (cnt'.getD x 0 ≤ cnt'.getD y 0))
+  (a.setIfInBounds v { nd a v with children := sorted }, cnt')
+
 /-- `Tree::ladderize`: descendant counts bottom-up over the reversed level order, then a stable sort of
     every child list by that count -/
 def ladderize (a : Arena) : Arena × Out :=
@@ -186,16 +202,7 @@ def ladderize (a : Arena) : Arena × Out :=
   | some r =>
     match levelorder a r with
     | none => (a, .diverge)
-    | some order =>
-      let step := fun (st : Arena × Array Nat) (v : Nat) =>
-        let (a, cnt) := st
-        let kids := (nd a v).children
-        let cv := (kids.map (fun c => cnt.getD c 0 + 1)).sum
-        let cnt' := cnt.setIfInBounds v cv
-        let sorted := kids.mergeSort (fun x y => decide (cnt'.getD x 0 ≤ cnt'.getD y 0))
-        (a.setIfInBounds v { nd a v with children := sorted }, cnt')
-      let (a', _) := order.reverse.foldl step (a, Array.replicate a.size 0)
-      (a', .ok none)
+    | some order => ((order.reverse.foldl ladderStep (a, Array.replicate a.size 0)).1, .ok none)
 
 /-- `Tree::reset_depths` -/
 def resetDepths (a : Arena) : Arena × Out :=
